@@ -33,6 +33,7 @@ MIN_REACH = {
     "sweeps_following_an_equal_valued_sweep": {"quick": 10, "thorough": 120},
     "grids_over_512_settings_through_executors": {"quick": 2, "thorough": 3},
     "grids_over_2000_settings": {"quick": 4, "thorough": 4},
+    "grids_given_as_mappings_that_are_not_dicts": {"quick": 25, "thorough": 400},
     "calls_logged": {"quick": 3000, "thorough": 200000},
     "distinct_completion_orders": {"quick": 40, "thorough": 700},
     "real_pool_cases": {"quick": 8, "thorough": 100},
@@ -231,6 +232,12 @@ def run_case(ctx, case):
     name = st["name"]
     spelled = gens.spell_combos([(a, _values_as(v, case.get("values_as", "list"))) for a, v in combos],
                                 case["spelling"])
+    if isinstance(spelled, dict) and (len(combos) + len(str(combos[0][0])) + len(kind)) % 4 == 1:
+        # the grid is a mapping that is not a dict (a read-only view of the caller's configuration, an OrderedDict)
+        import collections
+        import types
+        spelled = types.MappingProxyType(spelled) if len(combos) % 2 else collections.OrderedDict(spelled)
+        ctx.count("grids_given_as_mappings_that_are_not_dicts")
 
     tmp = None
     loglist = None
